@@ -344,7 +344,7 @@ example : (parseSchema 0 [116,121,112,101,32,65,32,105,109,112,108,101,109,101,1
   is the description text (nothing for the empty description); the parser reads the value of a
   String or BlockString token as the description.  The forward lemmas are proved for both spellings:
   `printItemK dk` is the unparse with descriptions as tokens of kind `dk`, `DescKind dk` says
-  `dk = .string ∨ dk = .blockString`, and `printItemK .string it = (sItem it).2` is what
+  `dk = .string ∨ dk = .blockString`, and `printItemK (fun _ => .string) it = (sItem it).2` is what
   `printSchema` concatenates.
 
   Side conditions (`ItemOK`, `PrintableSchema`): what the grammar requires (root operation types
@@ -367,9 +367,9 @@ theorem C06_parse_print_schema (d : SchemaDoc) (hp : PrintableSchema d) (inp : B
     ∃ d', parseSchema 0 inp = .ok d' ∧ d'.erasePos = (setBuiltIn false d).erasePos :=
   parseSchemaSrc_print d hp 0 false inp htok
 
-/-- the same for any sequence of items in any order, descriptions written as String (`dk = .string`)
-    or BlockString (`dk = .blockString`) tokens: every item comes back in its list, in item order -/
-theorem C06_parse_print_items {dk : Kind} (hdk : DescKind dk) (items : List SItem) (hok : ∀ it ∈ items, ItemOK it)
+/-- the same for any sequence of items in any order, each description `d` written as a String or
+    BlockString token (`dk d`): every item comes back in its list, in item order -/
+theorem C06_parse_print_items {dk : Bytes → Kind} (hdk : ∀ d, DescKind (dk d)) (items : List SItem) (hok : ∀ it ∈ items, ItemOK it)
     (src : Nat) (b : Bool) (inp : Bytes) (htok : tokensOf inp = some (items.flatMap (printItemK dk))) :
     ∃ d', parseSchemaSrc 0 src b inp = .ok d' ∧
       d'.erasePos = (setBuiltIn b (items.foldl SchemaDoc.add SchemaDoc.empty)).erasePos :=
@@ -388,7 +388,7 @@ theorem C06_parse_print_parse (src src' : Nat) (b : Bool) (inp inp' : Bytes) (d 
   parseSchemaSrc_print_parse src src' b inp inp' d h htok
 
 /-- the pieces, bottom-up -/
-theorem C06_parse_print_description {dk : Kind} (hdk : DescKind dk) (d : Bytes) (a : AS) (σ' : Stream)
+theorem C06_parse_print_description {dk : Bytes → Kind} (hdk : ∀ d, DescKind (dk d)) (d : Bytes) (a : AS) (σ' : Stream)
     (hs : Starts a.σ (printDescK dk d) σ') (hfol : d = [] → NoDesc σ') :
     Fwd parseDescription a (fun x a' => x = d ∧ a'.σ = σ') :=
   fwd_description hdk d a σ' hs hfol
@@ -409,24 +409,24 @@ theorem C06_parse_print_directive_locations (ls : List Name) (hne : ls ≠ [])
     Fwd (parseDirectiveLocations n) a (fun xs a' => xs = ls ∧ a'.σ = σ') :=
   fwd_directiveLocations ls hne hl n a σ' hs hfol
 
-theorem C06_parse_print_arguments_definition {dk : Kind} (hdk : DescKind dk) (xs : List ArgDef) (hok : ∀ x ∈ xs, ArgDefOK x)
+theorem C06_parse_print_arguments_definition {dk : Bytes → Kind} (hdk : ∀ d, DescKind (dk d)) (xs : List ArgDef) (hok : ∀ x ∈ xs, ArgDefOK x)
     (n : Nat) (a : AS) (σ' : Stream) (hs : Starts a.σ (printArgDefsK dk xs) σ') (habs : xs = [] → σ'.head.kind ≠ .parenL) :
     Fwd (parseArgumentDefs n) a (fun ys a' => ys.map ArgDef.erasePos = xs.map ArgDef.erasePos ∧ a'.σ = σ') :=
   fwd_argDefs hdk xs hok n a σ' hs habs
 
-theorem C06_parse_print_fields_definition {dk : Kind} (hdk : DescKind dk) (xs : List FieldDef) (hok : ∀ x ∈ xs, FieldDefOK x)
+theorem C06_parse_print_fields_definition {dk : Bytes → Kind} (hdk : ∀ d, DescKind (dk d)) (xs : List FieldDef) (hok : ∀ x ∈ xs, FieldDefOK x)
     (n : Nat) (a : AS) (σ' : Stream) (hs : Starts a.σ (printBlock (printFieldDefK dk) xs) σ')
     (habs : xs = [] → σ'.head.kind ≠ .braceL) :
     Fwd (parseFieldsDefinition n) a (fun ys a' => ys.map FieldDef.erasePos = xs.map FieldDef.erasePos ∧ a'.σ = σ') :=
   fwd_fieldDefs hdk xs hok n a σ' hs habs
 
-theorem C06_parse_print_input_fields_definition {dk : Kind} (hdk : DescKind dk) (xs : List FieldDef)
+theorem C06_parse_print_input_fields_definition {dk : Bytes → Kind} (hdk : ∀ d, DescKind (dk d)) (xs : List FieldDef)
     (hok : ∀ x ∈ xs, InputFieldOK x) (n : Nat) (a : AS) (σ' : Stream)
     (hs : Starts a.σ (printBlock (printInputFieldK dk) xs) σ') (habs : xs = [] → σ'.head.kind ≠ .braceL) :
     Fwd (parseInputFieldsDefinition n) a (fun ys a' => ys.map FieldDef.erasePos = xs.map FieldDef.erasePos ∧ a'.σ = σ') :=
   fwd_inputFields hdk xs hok n a σ' hs habs
 
-theorem C06_parse_print_enum_values_definition {dk : Kind} (hdk : DescKind dk) (xs : List EnumValDef)
+theorem C06_parse_print_enum_values_definition {dk : Bytes → Kind} (hdk : ∀ d, DescKind (dk d)) (xs : List EnumValDef)
     (hok : ∀ x ∈ xs, EnumValOK x) (n : Nat) (a : AS) (σ' : Stream)
     (hs : Starts a.σ (printBlock (printEnumValK dk) xs) σ') (habs : xs = [] → σ'.head.kind ≠ .braceL) :
     Fwd (parseEnumValuesDefinition n) a (fun ys a' => ys.map EnumValDef.erasePos = xs.map EnumValDef.erasePos ∧ a'.σ = σ') :=
@@ -434,14 +434,14 @@ theorem C06_parse_print_enum_values_definition {dk : Kind} (hdk : DescKind dk) (
 
 /-- a type definition after its description (`FolItem`: what follows is a description, a keyword
     other than `implements`, or EOF) -/
-theorem C06_parse_print_type_definition {dk : Kind} (hdk : DescKind dk) (d : Definition) (hok : DefOK d) (n : Nat) (a : AS)
+theorem C06_parse_print_type_definition {dk : Bytes → Kind} (hdk : ∀ d, DescKind (dk d)) (d : Definition) (hok : DefOK d) (n : Nat) (a : AS)
     (σ' : Stream) (hs : Starts a.σ (DefKind.keyword d.kind :: printDefBodyK dk d) σ') (hfol : FolItem σ') :
     Fwd (parseTypeSystemDefinition n d.desc) a
       (fun y a' => y.erasePos = ({ d with builtIn := false } : Definition).erasePos ∧ a'.σ = σ') :=
   fwd_typeSystemDefinition hdk d hok n a σ' hs hfol
 
 /-- `extend …` (schema and type extensions) -/
-theorem C06_parse_print_extension {dk : Kind} (hdk : DescKind dk) (it : SItem) (hok : ItemOK it)
+theorem C06_parse_print_extension {dk : Bytes → Kind} (hdk : ∀ d, DescKind (dk d)) (it : SItem) (hok : ItemOK it)
     (hext : (∃ s, it = .schemaExt s) ∨ (∃ d, it = .extension d)) (n : Nat) (doc : SchemaDoc) (a : AS) (σ' : Stream)
     (hs : Starts a.σ (printItemK dk it) σ') (hfol : FolItem σ') :
     Fwd (parseTypeSystemExtension n doc) a (fun y a' => y.erasePos = doc.erasePos.add it.norm ∧ a'.σ = σ') :=
@@ -452,7 +452,7 @@ theorem C06_parse_print_schema_definition (s : SchemaDef) (hok : SchemaDefOK s) 
     Fwd (parseSchemaDefinition n s.desc) a (fun y a' => y.erasePos = s.erasePos ∧ a'.σ = σ') :=
   fwd_schemaDefinition s hok n a σ' hs
 
-theorem C06_parse_print_directive_definition {dk : Kind} (hdk : DescKind dk) (d : DirectiveDef) (hok : DirectiveDefOK d)
+theorem C06_parse_print_directive_definition {dk : Bytes → Kind} (hdk : ∀ d, DescKind (dk d)) (d : DirectiveDef) (hok : DirectiveDefOK d)
     (n : Nat) (a : AS) (σ' : Stream)
     (hs : Starts a.σ (tKw "directive" :: tP .at :: tName d.name :: printArgDefsK dk d.args
       ++ (if d.repeatable then [tKw "repeatable"] else []) ++ tKw "on" :: printSep .pipe d.locations) σ')
